@@ -27,6 +27,7 @@ func runC07(c *Ctx, r *Report) {
 	defer c07r7(c, r)
 	defer c07r8(c, r)
 	defer c07r11(c, r)
+	defer c10r7(c, r) // the printed field ends where the displayed field ends
 	fPrinterO := l.Field("fzf", "Options", "Printer")
 	fPrinterT := l.Field("fzf", "Terminal", "printer")
 	fOutput := l.Field("fzf", "Options", "Output")
